@@ -34,7 +34,8 @@ Failures are grouped into classes (see `classify`), one Item per class with the 
   skipto-body-not-passed-as-closure      `with ctx.skipto():` is emitted without `as cl` / `@cl.exp` (D26)
   name-binds-last-node-of-group          x:('a' 'b') binds 'b' in generated code (D5)
   name-binds-stale-previous-node         a name / override whose operand appends nothing binds the previous element (D25)
-  void-or-lookahead-value-differs        x:() / x:&e: the model binds () / the value of e, generated code None (docs silent)
+  void-or-lookahead-value-differs        x:() / x:&e / x:->&e: the model binds () / the value of e, generated code None (docs silent)
+  override-nested-in-a-named-operand     x:{@:e} ...: an override inside the operand of a name / override (model: rule-wide key)
   names-predefined-by-sequences-only     an optional / an option that is not a sequence pre-defines its names in the model only
   sequence-does-not-predefine-its-names  (not on the unchanged tree) a sequence's `ctx.define` is missing
   text-None-skipped-as-comment           comments=r'None' is emitted when the grammar has no comments pattern
@@ -510,6 +511,13 @@ def classify(text, src, kinds, opmap, inp, sval, m, g, rerun):
         if kind == 'value':
             ops |= opmap.get('@' if k is None else k, set())
             inside |= opmap.get(('below', '@' if k is None else k), set())
+    if inside & {'Override', 'OverrideList'}:
+        # a name / override whose operand itself contains an override: in the model the inner `@:` binds the rule-wide override
+        # key while the operand is still being parsed, generated code binds the node the operand left behind
+        return 'override-nested-in-a-named-operand'
+    if 'SkipTo' in ops and (inside | ops) & VALUELESS:
+        # x:->&e, x:->(): skip-to of an expression without a value -- same family as x:() / x:&e
+        return 'void-or-lookahead-value-differs'
     if ops & {'Group', 'Choice', 'Sequence'}:
         # the model binds the value of `()` and of `&e` as items of the group
         return 'void-or-lookahead-value-differs' if inside & {'Void', 'Lookahead'} else 'name-binds-last-node-of-group'
